@@ -1,4 +1,6 @@
 import M3d.Lemmas.Transform
+import M3d.Lemmas.SmartSqueeze
+import M3d.Lemmas.Transform2
 import Mathlib.Algebra.Order.Field.Rat
 /-!
 # C05 — transforms invert, and transformed objects are images of the original
@@ -170,6 +172,40 @@ example : (Xf.jcons (.scale (-2 : ℚ)) (.jcons (.ortho ⟨0, -1, 0, 1, 0, 0, 0,
   refine ⟨by show (-2 : ℚ) ≠ 0; norm_num, ?_, trivial, trivial⟩
   show M3.mul _ _ = _
   ext <;> norm_num [M3.mul, M3.transpose, M3.one]
+
+/-! ## Rotations: `Rotation(axis, θ)`, `NewMatrix3Rotation`, `NewMatrix2Rotation` with `(c, s) = (cos θ, sin θ)` -/
+
+/-- **`NewMatrix3Rotation(axis, θ)` is orthogonal with determinant 1 and fixes the axis** whenever the axis is a unit
+vector and `c² + s² = 1` (`sqrtF` any function with `sqrtF(x)² = x` for `x > 0`) — so `Rotation(axis, θ)` satisfies the
+hypothesis `DistValid` of every distance / collider theorem above, for every angle. -/
+theorem rotation3_orthogonal (sqrtF : K → K) (hs : ∀ x, 0 < x → sqrtF x * sqrtF x = x) (axis : V3 K)
+    (haxis : axis.normSq = 1) (c s : K) (hcs : c * c + s * s = 1) :
+    (rotation3 sqrtF axis c s).transpose.mul (rotation3 sqrtF axis c s) = M3.one ∧
+      (rotation3 sqrtF axis c s).det = 1 ∧ (rotation3 sqrtF axis c s).mulColumn axis = axis ∧
+      (Xf.ortho (rotation3 sqrtF axis c s)).DistValid := by
+  obtain ⟨h11, h22, ha1, ha2, h12⟩ := orthoBasis_orthonormal sqrtF hs axis haxis
+  obtain ⟨h1, h2, h3⟩ := rotationIn_ortho axis (orthoBasis sqrtF axis).1 (orthoBasis sqrtF axis).2 c s
+    haxis h11 h22 ha1 ha2 h12 hcs
+  exact ⟨h1, h2, h3, h1⟩
+
+/-- The same in any orthonormal basis `(axis, b1, b2)` (no square root needed). -/
+theorem rotation_in_orthogonal (a b1 b2 : V3 K) (c s : K) (haa : a.dot a = 1) (h11 : b1.dot b1 = 1)
+    (h22 : b2.dot b2 = 1) (ha1 : a.dot b1 = 0) (ha2 : a.dot b2 = 0) (h12 : b1.dot b2 = 0) (hcs : c * c + s * s = 1) :
+    (rotationIn a b1 b2 c s).transpose.mul (rotationIn a b1 b2 c s) = M3.one ∧ (rotationIn a b1 b2 c s).det = 1 ∧
+      (rotationIn a b1 b2 c s).mulColumn a = a :=
+  rotationIn_ortho a b1 b2 c s haa h11 h22 ha1 ha2 h12 hcs
+
+/-- **`NewMatrix2Rotation(θ)` is orthogonal with determinant 1** when `c² + s² = 1`. -/
+theorem rotation2_orthogonal (c s : K) (hcs : c * c + s * s = 1) :
+    (M2.rotation c s).transpose.mul (M2.rotation c s) = M2.one ∧ (M2.rotation c s).det = 1 :=
+  M2.rotation_ortho c s hcs
+
+/-- non-vacuity at ℚ: the Pythagorean rotation (3/5, 4/5) about the unit axis (1/3, 2/3, 2/3) -/
+example : (rotationIn (⟨1/3, 2/3, 2/3⟩ : V3 ℚ) ⟨2/3, 1/3, -2/3⟩ ⟨2/3, -2/3, 1/3⟩ (3/5) (4/5)).det = 1 :=
+  (rotation_in_orthogonal _ _ _ _ _ (by norm_num [V3.dot]) (by norm_num [V3.dot]) (by norm_num [V3.dot])
+    (by norm_num [V3.dot]) (by norm_num [V3.dot]) (by norm_num [V3.dot]) (by norm_num)).2.1
+
+example : (M2.rotation (5/13 : ℚ) (12/13)).det = 1 := (rotation2_orthogonal _ _ (by norm_num)).2
 
 /-! ## TransformSolid / TransformSDF / TransformMetaball -/
 
@@ -351,9 +387,161 @@ theorem pinch_bounds_encloses (powF : K → K) (hp : PowLike powF)
   simp only [Pinch.applyBounds, Pinch.apply_eq]
   exact hb.set_axis a.axis (pinch1_mono powF hp hm _ _ h hg.1) (pinch1_mono powF hp hm _ _ h hg.2)
 
+/-- **General `Power`**: if `powF` is monotone on `x ≥ 0`, `powF 0 = 0`, `powF 1 = 1`, and `powG` undoes it on
+`x ≥ 0` (`pow(pow(x,p),1/p) = x`), then `powF` is `PowLike`, hence the pinch inverts (`pinch_inverse`) and its bounds
+enclose (`pinch_bounds_encloses`). -/
+theorem pinch_general_power (powF powG : K → K)
+    (hm : ∀ u w, 0 ≤ u → u ≤ w → powF u ≤ powF w) (h0 : powF 0 = 0) (h1 : powF 1 = 1)
+    (hg : ∀ x, 0 ≤ x → powG (powF x) = x) (a : Pinch K) (h : a.lo < a.hi) :
+    PowLike powF ∧ (∀ c, a.apply powG (a.apply powF c) = c) ∧
+      (∀ lo hi p, Box lo hi p → Box (a.applyBounds powF lo hi).1 (a.applyBounds powF lo hi).2 (a.apply powF p)) := by
+  have hp : PowLike powF := by
+    intro u hu0 hu1
+    refine ⟨by rw [← h0]; exact hm 0 u (le_refl _) hu0, by rw [← h1]; exact hm u 1 hu0 hu1, ?_⟩
+    intro hpos
+    have hge : 0 ≤ powF u := by rw [← h0]; exact hm 0 u (le_refl _) hu0
+    rcases hge.lt_or_eq with hlt | heq
+    · exact hlt
+    · exfalso
+      have e1 := hg u hu0
+      rw [← heq, ← h0, hg 0 (le_refl _)] at e1
+      exact (ne_of_gt hpos) e1.symm
+  exact ⟨hp, fun c => pinch_inverse powF powG hp (fun u hu0 _ => hg u hu0) a h c,
+    fun lo hi p hb => pinch_bounds_encloses powF hp (fun u w hu huw _ => hm u w hu huw) a h lo hi p hb⟩
+
 /-- non-vacuity: squaring is `PowLike` and monotone on `[0,1]` over any ordered field -/
 example : PowLike (fun t : K => t * t) ∧ ∀ u w : K, 0 ≤ u → u ≤ w → w ≤ 1 → u * u ≤ w * w :=
   ⟨fun u h0 h1 => ⟨mul_nonneg h0 h0, by nlinarith, fun h => mul_pos h h⟩,
    fun u w h0 h1 _ => mul_le_mul h1 h1 h0 (le_trans h0 h1)⟩
+
+/-! ## toolbox3d.SmartSqueeze.Transform -/
+
+/-- **The breakpoint loop of `SmartSqueeze.Transform` terminates**: every iteration moves `value` to a strictly later
+element of the finite set {range starts, range ends, max}, so `2·#ranges + 2` iterations always suffice — running the
+loop with any larger fuel gives the same list of squeezes (for arbitrary, also overlapping / inverted / empty ranges). -/
+theorem smart_squeeze_terminates (ranges : List (K × K)) (max v : K) (acc : List (K × K)) (m : Nat)
+    (hm : 2 * ranges.length + 2 ≤ m) :
+    squeezeLoop ranges max m v acc = squeezeLoop ranges max (2 * ranges.length + 2) v acc := by
+  apply squeezeLoop_fuel ranges max _ v acc _ m hm
+  have hfm : ∀ l : List (K × K), (l.flatMap fun r => [r.1, r.2]).length = 2 * l.length := by
+    intro l
+    induction l with
+    | nil => rfl
+    | cons r rest ih => simp only [List.flatMap_cons, List.length_append, List.length_cons, List.length_nil, ih]; omega
+  have hlen : (breakpoints ranges max).length = 2 * ranges.length + 1 := by
+    simp only [breakpoints, List.length_cons, hfm]
+  have := List.countP_le_length (p := fun x => decide (v < x)) (l := breakpoints ranges max)
+  omega
+
+/-- Without pinches the transform is the reversed list of the loop's squeezes. -/
+theorem smart_pieces_no_pinch (unsq : List (K × K)) (pr lo hi : K) :
+    smartPieces unsq [] pr lo hi =
+      (squeezeLoop unsq hi (2 * unsq.length + 2) lo []).reverse.map fun r => Piece.squeeze r.1 r.2 := by
+  simp [smartPieces, smartRanges, List.map_reverse]
+
+/-- **The squeezes produced are proper (`Min < Max`), so the composed transform is invertible by its own `Inverse()`
+in both orders, and it is a monotone map of the squeezed coordinate that leaves the other coordinates alone**
+(`ratio > 0`; any order of the members, in particular the reversed one the library returns). -/
+theorem smart_squeeze_inverse (axis : Nat) (ratio : K) (hr : 0 < ratio) (ranges : List (K × K)) (lo hi : K) (n : Nat) :
+    let t := smartXf axis ratio (squeezeLoop ranges hi n lo []).reverse
+    t.Valid ∧ (∀ p, t.inverse.apply (t.apply p) = p) ∧ (∀ p, t.apply (t.inverse.apply p) = p) ∧
+      ∃ f : K → K, (∀ v w, v ≤ w → f v ≤ f w) ∧ ∀ c : V3 K, t.apply c = c.set axis (f (c.get axis)) := by
+  have hv : ∀ r ∈ (squeezeLoop ranges hi n lo []).reverse, r.1 < r.2 := fun r hr' =>
+    squeezeLoop_valid ranges hi n lo [] (by simp) r (List.mem_reverse.mp hr')
+  have hval := smartXf_valid axis ratio hr _ hv
+  exact ⟨hval, Xf.inverse_apply _ hval, Xf.apply_inverse _ hval, smartXf_monotone axis ratio hr _ hv⟩
+
+/-! ## The 2-D instance (`model2d/transform.go`, `model2d/matrix.go`) — its own model `M3d/Model/Transform2.lean` -/
+
+/-- 2-D **`Inverse().Apply(Apply(p)) = p = Apply(Inverse().Apply(p))`** for `model2d` Translate, Scale (`s ≠ 0`), VecScale
+(non-zero components), `Matrix2Transform` (`det ≠ 0`), orthogonal `Matrix2` transforms and nested joins. -/
+theorem inverse_apply_2d (t : Xf2 K) (h : t.Valid) (p : V2 K) :
+    t.inverse.apply (t.apply p) = p ∧ t.apply (t.inverse.apply p) = p :=
+  ⟨Xf2.inverse_apply t h p, Xf2.apply_inverse t h p⟩
+
+/-- `Matrix2Transform`: `Inverse()` undoes `Apply` on columns whenever `Det ≠ 0`. -/
+theorem matrix2_transform_inverse (m : M2 K) (h : m.det ≠ 0) (c : V2 K) :
+    (Xf2.matrix m).inverse.apply ((Xf2.matrix m).apply c) = c ∧ (Xf2.matrix m).apply ((Xf2.matrix m).inverse.apply c) = c :=
+  ⟨M2.inverse_mulColumn m h c, M2.mulColumn_inverse m h c⟩
+
+/-- 2-D **`ApplyBounds` encloses the image of the rectangle** — for `Matrix2Transform` the result is the bounding box of
+the **4** corner images; negative scales handled. No side condition (all 2-D transforms are affine). -/
+theorem apply_bounds_encloses_2d (t : Xf2 K) (lo hi p : V2 K) (hb : Box2 lo hi p) :
+    Box2 (t.applyBounds lo hi).1 (t.applyBounds lo hi).2 (t.apply p) ∧
+      (inBounds2 p lo hi = true → inBounds2 (t.apply p) (t.applyBounds lo hi).1 (t.applyBounds lo hi).2 = true) :=
+  ⟨Xf2.applyBounds_encloses t lo hi p hb,
+   fun h => (inBounds2_iff _ _ _).mpr (Xf2.applyBounds_encloses t lo hi p ((inBounds2_iff _ _ _).mp h))⟩
+
+/-- 2-D **`ApplyDistance` is the exact change of distance** (and `= d · factor`, `factor > 0`). -/
+theorem apply_distance_exact_2d (t : Xf2 K) (h : t.DistValid) (p q : V2 K) (d : K) (hd : 0 ≤ d)
+    (hpq : d * d = (p.sub q).normSq) :
+    0 ≤ t.applyDistance d ∧ t.applyDistance d * t.applyDistance d = ((t.apply p).sub (t.apply q)).normSq ∧
+      t.isDist = true := by
+  rw [Xf2.applyDistance_eq, Xf2.normSq_apply_sub t h, ← hpq]
+  exact ⟨mul_nonneg hd (Xf2.factor_pos t h).le, by ring, Xf2.distValid_isDist t h⟩
+
+/-- 2-D `Rotation(θ)` (= `orthoMatrix2Transform{NewMatrix2Rotation(θ)}`) satisfies `DistValid` whenever `c² + s² = 1`. -/
+theorem rotation2_dist_valid (c s : K) (hcs : c * c + s * s = 1) : (Xf2.ortho (M2.rotation c s)).DistValid :=
+  (M2.rotation_ortho c s hcs).1
+
+/-- 2-D **`TransformSolid` / `TransformSDF` conjugacy.** -/
+theorem transform_solid_sdf_conj_2d (t : Xf2 K) (s : Solid2 K) (f : SDF2 K) (q : V2 K)
+    (hs : ∀ x, s.contains x = true → Box2 s.lo s.hi x) :
+    (t.Valid → (transformSolid2 t s).contains (t.apply q) = s.contains q) ∧
+      (t.DistValid → (transformSDF2 t f).sdf (t.apply q) = f.sdf q * t.factor ∧ 0 < t.factor) := by
+  constructor
+  · intro h
+    simp only [transformSolid2, Xf2.inverse_apply t h]
+    cases hc : s.contains q with
+    | false => simp
+    | true =>
+        have := (inBounds2_iff _ _ _).mpr (Xf2.applyBounds_encloses t s.lo s.hi q (hs q hc))
+        simp [this]
+  · intro h
+    simp only [transformSDF2, Xf2.inverse_apply t (Xf2.distValid_valid t h), Xf2.applyDistance_eq]
+    exact ⟨trivial, Xf2.factor_pos t h⟩
+
+/-- 2-D **`TransformCollider`**: inner ray `(t⁻¹o, L⁻¹d)`, every ray point corresponds with the same parameter; the
+reported collisions are the inner ones with the same count / parameter / `Extra` and normal `normalize(L n)`; nil
+callback safe; `CircleCollision` conjugacy. -/
+theorem transform_collider_conj_2d (sqrtF : K → K) (t : Xf2 K) (hv : t.Valid) (c : Collider2 K) (o d : V2 K) (k : K) :
+    let ir := innerRay2 t.inverse ⟨o, d⟩
+    t.apply (ir.origin.add (ir.dir.scale k)) = o.add (d.scale k) ∧
+      tcRayCollisions2 sqrtF t c ⟨o, d⟩ true =
+        .ok (c.count ir) ((c.hits ir).map fun h => { scale := h.scale, normal := (t.lin h.normal).normalize sqrtF, extra := h.extra }) ∧
+      tcRayCollisions2 sqrtF t c ⟨o, d⟩ false = .ok (c.count ir) [] := by
+  refine ⟨?_, rfl, rfl⟩
+  show t.apply ((t.inverse.apply o).add ((t.inverse.lin d).scale k)) = o.add (d.scale k)
+  rw [Xf2.apply_add t, Xf2.apply_inverse t hv, Xf2.lin_scale t, Xf2.lin_lin_inverse t hv]
+
+/-- 2-D **normal**: unit length after normalisation, and for a similarity `L n = factor² · L⁻ᵀ n`, orthogonal to the image
+of every tangent. -/
+theorem transform_collider_normal_2d (sqrtF : K → K) (t : Xf2 K) (h : t.DistValid) (n w τ v : V2 K)
+    (hv : v.normSq ≠ 0) (hs : sqrtF v.normSq * sqrtF v.normSq = v.normSq) :
+    (v.normalize sqrtF).normSq = 1 ∧ (t.lin n).dot w = t.factor * t.factor * n.dot (t.inverse.lin w) ∧
+      (n.dot τ = 0 → (t.lin n).dot (t.lin τ) = 0) := by
+  refine ⟨?_, ?_, ?_⟩
+  · have h0 : sqrtF v.normSq ≠ 0 := by
+      intro h'; rw [h', zero_mul] at hs; exact hv hs.symm
+    unfold V2.normalize
+    generalize sqrtF v.normSq = r at hs h0 ⊢
+    simp only [V2.normSq, V2.scale] at hs ⊢
+    have : (v.x * v.x + v.y * v.y) * (1 / r * (1 / r)) = 1 := by rw [← hs]; field_simp
+    linear_combination this
+  · have e := Xf2.dot_lin t h n (t.inverse.lin w)
+    rwa [Xf2.lin_lin_inverse t (Xf2.distValid_valid t h)] at e
+  · intro h0
+    rw [Xf2.dot_lin t h, h0, mul_zero]
+
+/-- 2-D `CircleCollision` conjugacy. -/
+theorem transform_collider_circle_2d (t : Xf2 K) (h : t.DistValid) (c : Collider2 K) (q : V2 K) (r : K) :
+    tcCircle2 t c (t.apply q) (t.applyDistance r) = c.circle q r := by
+  have hf := ne_of_gt (Xf2.factor_pos t h)
+  simp only [tcCircle2, Xf2.inverse_apply t (Xf2.distValid_valid t h), Xf2.applyDistance_eq, Xf2.factor_inverse t h]
+  congr 1
+  field_simp
+
+example : (Xf2.jcons (.scale (-2 : ℚ)) (.jcons (.ortho (M2.rotation (3/5) (4/5))) (.jcons (.translate ⟨5, 0⟩) .jnil))).DistValid := by
+  refine ⟨by show (-2 : ℚ) ≠ 0; norm_num, rotation2_dist_valid _ _ (by norm_num), trivial, trivial⟩
 
 end M3d.C05
